@@ -1,13 +1,28 @@
 /-
-  Certificate obligations, part 6 of 8 of the `patched` client system (kernel evaluation; one module per
-  part so that lake checks them in parallel). Assembled in `Lemmas/CliCert.lean`.
+  Certificate obligations, parts 48..55 of 64 of the `patched` client system (kernel evaluation; 8 modules
+  so that lake checks them in parallel; small parts keep the kernel's memory small).
+  Assembled in `Lemmas/CliCert.lean`.
 -/
 import KmipModel.Model.CliConn
 import KmipModel.Gen.CertCliConn
 namespace Kmip.CliCert
 open Kmip.CliLts Kmip.CliConn Kmip.Gen.CertCliConn
 
-theorem paClosed6 : partClosed (sys patched) codec certPatched paP6 = true := by decide +kernel
-theorem paSafe6 : partSafe codec (badFull patched) paP6 = true := by decide +kernel
+theorem paClosed48 : partClosed (sys patched) codec certPatched paP48 = true := by decide +kernel
+theorem paSafe48 : partSafe codec (badFull patched) paP48 = true := by decide +kernel
+theorem paClosed49 : partClosed (sys patched) codec certPatched paP49 = true := by decide +kernel
+theorem paSafe49 : partSafe codec (badFull patched) paP49 = true := by decide +kernel
+theorem paClosed50 : partClosed (sys patched) codec certPatched paP50 = true := by decide +kernel
+theorem paSafe50 : partSafe codec (badFull patched) paP50 = true := by decide +kernel
+theorem paClosed51 : partClosed (sys patched) codec certPatched paP51 = true := by decide +kernel
+theorem paSafe51 : partSafe codec (badFull patched) paP51 = true := by decide +kernel
+theorem paClosed52 : partClosed (sys patched) codec certPatched paP52 = true := by decide +kernel
+theorem paSafe52 : partSafe codec (badFull patched) paP52 = true := by decide +kernel
+theorem paClosed53 : partClosed (sys patched) codec certPatched paP53 = true := by decide +kernel
+theorem paSafe53 : partSafe codec (badFull patched) paP53 = true := by decide +kernel
+theorem paClosed54 : partClosed (sys patched) codec certPatched paP54 = true := by decide +kernel
+theorem paSafe54 : partSafe codec (badFull patched) paP54 = true := by decide +kernel
+theorem paClosed55 : partClosed (sys patched) codec certPatched paP55 = true := by decide +kernel
+theorem paSafe55 : partSafe codec (badFull patched) paP55 = true := by decide +kernel
 
 end Kmip.CliCert
